@@ -281,8 +281,10 @@ extern MPT_INTERFACE(metatype) *_mpt_iterator_range(MPT_STRUCT(value) *val)
 			return 0;
 		}
 		
-		if (step > (r.max - r.min)
-		  || step < (r.max - r.min) * 1e-6) {
+		/* negated tests: refuse NaN, too */
+		if (!(step <= (r.max - r.min))
+		  || !(step >= (r.max - r.min) * 1e-6)
+		  || !((r.max - r.min) / step < 2e6)) {
 			errno = ERANGE;
 			return 0;
 		}
